@@ -112,7 +112,10 @@ def buildOp (st : BState) (op : String) : BState :=
   | ["fa", c, vs] =>
     match basicOfCode c with
     | some b =>
-      let nums := if vs = "" then some [] else (vs.splitOn ",").mapM String.toNat?
+      -- blocks appended one after the other (`;` between them: several dbus_message_iter_append_fixed_array calls, a lone value with a
+      -- `b` in front: dbus_message_iter_append_basic) make one array of all the values in the order they were appended
+      let flat := ((vs.replace ";" ",").replace "b" "")
+      let nums := if vs = "" then some [] else ((flat.splitOn ",").filter (· ≠ "")).mapM String.toNat?
       match nums with
       | some ns => addChild st (.val (.array (.basic b) (ns.map (Val.fixed b))))
       | none => fail
